@@ -820,6 +820,8 @@ impl Exec {
                 let shape = e.get("shape").and_then(|x| x.as_str()).unwrap_or("data").to_string();
                 let settled = e.get("settled").and_then(|x| x.as_bool());
                 let batch = e.get("batchable").and_then(|x| x.as_bool()).unwrap_or(false);
+                // polls: the send future is polled at most that many times and then left alone until it is cancelled
+                let polls = e.get("polls").and_then(|x| x.as_u64()).map(|x| x as usize).unwrap_or(usize::MAX);
                 self.msg_shapes.insert(m, (len, shape.clone()));
                 self.sent_queue.entry(snd.name().to_string()).or_default().push((m, len));
                 let sendable = Sendable::builder().message(build_message(m, len, &shape)).settled(settled).build();
@@ -834,8 +836,9 @@ impl Exec {
                         }
                     } else {
                         tokio::select! {
-                            r = snd.send(sendable) => match r { Ok(o) => (json!({"ok": true, "class": "", "cond": "", "dbg": "", "outcome": class_of(&format!("{o:?}")).to_lowercase()}), Back::Sender(ln, snd)), Err(e) => (err_json(&e), Back::Sender(ln, snd)) },
+                            biased;
                             _ = crx => (json!({"ok": false, "class": "Cancelled", "cond": "", "dbg": ""}), Back::Sender(ln, snd)),
+                            r = (PollLimited { inner: Box::pin(snd.send(sendable)), left: polls }) => match r { Ok(o) => (json!({"ok": true, "class": "", "cond": "", "dbg": "", "outcome": class_of(&format!("{o:?}")).to_lowercase()}), Back::Sender(ln, snd)), Err(e) => (err_json(&e), Back::Sender(ln, snd)) },
                         }
                     }
                 });
